@@ -499,13 +499,16 @@ def _check_lookup_history(case, out, stats):
         cls = "none-but-sample-exists" if got is None else ("index-but-no-such-sample" if accept == [None] else "wrong-index")
         out.append(("C17:get_sample_index-history:%s:%s:%s" % (policy, cls, ktail),
                     "%s returned %r, expected %s" % (ctxt, got, " or ".join(repr(a) for a in accept))))
-    # the lookups are reads: stored times unchanged
+    # the lookups are reads: the stored times are still the same physical times (compared in SI, 1e-12 relative;
+    # the statement does not forbid re-expressing them, so the unit itself is not compared)
     stats["evaluations"] += 1
     try:
-        now = [float(x) for x in tr.t.value]
-        if now != times or uq.sys_of(tr.t.units)[1] != tunit or uq.dim_of(tr.t.units) != (0, 1, 0):
+        now = uq.si_value(tr.t)
+        same = uq.dim_of(tr.t.units) == (0, 1, 0) and len(now) == len(T) and all(
+            (a == b) if b == 0 else abs(a / b - 1) <= F(1, 10 ** 12) for a, b in zip(now, T))
+        if not same:
             out.append(("C17:get_sample_index-history:trajectory-mutated:t",
-                        "after the lookups t = %r %s, it was built as %r %s" % (now, tr.t.units, times, tunit)))
+                        "after the lookups t = %s, it was built as %r %s" % (tr.t, times, tunit)))
     except Exception as e:
         out.append(("C17:get_sample_index-history:trajectory-mutated:t", "t unreadable after the lookups: %s" % e))
 
